@@ -14,7 +14,8 @@ PROOF_TARGETS = ["TypifyModel.Proofs.C03Valid", "TypifyModel.Proofs.C03", "Typif
 PROOF_FILES = ["Proofs/C03Valid.lean", "Proofs/C03.lean", "Proofs/Lemmas/RoundTripLemmas.lean", "Proofs/Lemmas/RoundTripStruct.lean",
                "Proofs/Lemmas/RoundTripStruct2.lean", "Proofs/Lemmas/RoundTripMain.lean", "Proofs/Lemmas/RoundTripEnum.lean",
                "Proofs/Lemmas/SortedKv.lean", "Proofs/C03Contain.lean", "Proofs/Lemmas/ContainBasic.lean", "Proofs/Lemmas/ContainRefl.lean",
-               "Proofs/Lemmas/ContainList.lean", "Proofs/Lemmas/ContainStruct.lean", "Proofs/Lemmas/ContainEnum.lean"]
+               "Proofs/Lemmas/ContainList.lean", "Proofs/Lemmas/ContainStruct.lean", "Proofs/Lemmas/ContainEnum.lean",
+               "Proofs/Lemmas/RoundTripFlat.lean", "Proofs/Lemmas/ContainFlat.lean", "Proofs/FlattenFindings.lean"]
 
 def cases(ctx):
     import gen
